@@ -43,6 +43,7 @@ def gen_case(rng, tier):
         npep=rng.choice([2, 4, 8, 16]),
         data_seed=rng.randrange(1 << 30),
     )
+    case["center"] = rng.random() < 0.5
     case["cconf"] = rng.choice([1, 2, 3, 5, 7, "n-1", "n", "n+1", 10 ** 6])
     case["cmerge"] = rng.choice([1, 2, 3, 7, "n+1", 20000])
     case["rg"] = rng.choice([1, 2, 5, None])
@@ -69,6 +70,9 @@ def build_tables(case):
             score = np.array([float(r.randint(0, max(2, len(df) // 3))) for _ in range(len(df))])
         else:
             score = df["feat0"].values.astype(float)
+        if case.get("center"):
+            # scores straddling zero, one of them exactly 0.0 (a falsy maximum must not be mistaken for "no row yet")
+            score = score - sorted(score)[len(score) // 2]
         tabs.append((df, score))
     return tabs
 
@@ -232,7 +236,7 @@ def run_case(chk, case):
             return
         chk.count("fmt", case["fmt"]); chk.count("dedup", case["dedup"]); chk.count("rollup", case["rollup"])
         chk.count("decoys", case["decoys"]); chk.count("ties", case["ties"]); chk.count("ncoll", case["ncoll"])
-        chk.count("prefixes", case["prefixes"]); chk.count("cconf", str(case["cconf"]))
+        chk.count("prefixes", case["prefixes"]); chk.count("cconf", str(case["cconf"])); chk.count("scores_straddle_zero", bool(case.get("center")))
         chk.count("cmerge", str(case["cmerge"])); chk.count("nlevels", len(level_names))
         # leftovers: no intermediate files (also C09)
         left = [f.name for f in out.iterdir() if "scores_metadata" in f.name or f.name.split(".")[-1] in ("pin", "parquet")]
